@@ -198,15 +198,17 @@ type site struct {
 }
 
 type Engine struct {
-	tier   string
-	solo   map[string]string        // call key -> solo result
-	calib  map[string]int64         // scenario key -> yield count of the sequential run
-	calibW map[string]int64         // ... count of "interesting" yields (global writes, lock boundaries)
-	calibS map[string]map[int]int64 // ... executions per interesting site
-	sites  []site
-	tmp    string
-	nchild int
-	exe    string
+	tier    string
+	run     uint64
+	haveRun bool
+	solo    map[string]string        // call key -> solo result
+	calib   map[string]int64         // scenario key -> yield count of the sequential run
+	calibW  map[string]int64         // ... count of "interesting" yields (global writes, lock boundaries)
+	calibS  map[string]map[int]int64 // ... executions per interesting site
+	sites   []site
+	tmp     string
+	nchild  int
+	exe     string
 }
 
 func New() sim.Engine {
@@ -292,6 +294,8 @@ type sample struct {
 
 func (s *sample) LogLines() []string { return s.Log }
 
+func (e *Engine) SetRun(seed, run uint64) { e.run, e.haveRun = run, true }
+
 func (e *Engine) Run(t *tape.Tape, keep bool) *sim.Result {
 	res := sim.NewResult()
 	var log tape.Log
@@ -362,23 +366,65 @@ func (e *Engine) Run(t *tape.Tape, keep bool) *sim.Result {
 	// window by chance.
 	sweep := t.Draw(2) == 1
 	sweepPick := t.Draw(1 << 12)
-	// a second sweep, over the points right after a call that received package-level
-	// storage by reference (a shared scratch buffer, a table handed to a callee that
-	// may write it): two callers RUN output-heavy programs, one is pre-empted at a
-	// chosen occurrence of one such site and comes back after half, nearly all, or
-	// all of the other caller's work.
-	storageSweep := sweep && sweepPick%2 == 1
-	if sweep {
-		pa, pb := 0, 1+(sweepPick%2)*2 // hello_a with strings_b or iface_d: few scenarios, so baselines are cached
-		sc.Tasks = [][]Call{{{API: "BuildFile", Prog: pa}}, {{API: "BuildFile", Prog: pb}}}
-		if storageSweep {
-			sc.Tasks = [][]Call{{{API: "RunCode", Prog: progIndex("ints_o")}}, {{API: "RunCode", Prog: progIndex("ints_p")}}}
-			if sweepPick/2%2 == 1 {
-				sc.Tasks[0], sc.Tasks[1] = sc.Tasks[1], sc.Tasks[0]
+	// decoded selectors of a sweep (from the tape draw, or - below - from the run index)
+	stSweep := sweepPick%2 == 1
+	pbSel := sweepPick / 2 % 2
+	stVariant := sweepPick / 2 % 4
+	stNested := sweepPick/8%2 == 0
+	stPair := sweepPick / 16
+	lockPair := sweepPick / 25
+	if e.haveRun {
+		// the sweeps are enumerations, so they are walked systematically: the run index
+		// (not a random draw) selects sweep kind, scenario variant and (site,
+		// occurrence) pair; with the workers' strided run indices every fourth worker
+		// walks one variant's pairs in order. (The two draws above stay in the tape
+		// layout; replay sets the run index from the replay file.)
+		// of 16 consecutive run indices 8 are free scenarios, 4 lock-window sweeps and
+		// 4 shared-storage sweeps; k counts the runs of one kind
+		kindOf := [16]int{0, 1, 0, 2, 0, 1, 0, 2, 0, 1, 0, 2, 0, 1, 0, 2}
+		pos := 0
+		for i := 0; i < int(e.run%16); i++ {
+			if kindOf[i] == kindOf[e.run%16] {
+				pos++
 			}
 		}
-		sm.Tasks = []string{callKey(sc.Tasks[0][0]), callKey(sc.Tasks[1][0])}
-		keyParts = []string{"sweep", sm.Tasks[0], sm.Tasks[1]}
+		per := map[int]int{0: 8, 1: 4, 2: 4}[kindOf[e.run%16]]
+		k := int(e.run/16)*per + pos
+		sweep = kindOf[e.run%16] != 0
+		stSweep = kindOf[e.run%16] == 2
+		stVariant = k % 4
+		stNested = (k/4)%2 == 0
+		stPair = k / 8
+		pbSel = k % 2
+		lockPair = k / 2
+	}
+	storageSweep := sweep && stSweep
+	if sweep {
+		pa, pb := 0, 1+pbSel*2 // hello_a with strings_b or iface_d: few scenarios, so baselines are cached
+		sc.Tasks = [][]Call{{{API: "BuildFile", Prog: pa}}, {{API: "BuildFile", Prog: pb}}}
+		if storageSweep {
+			// three callers: two windows per run (the first caller is pre-empted at one
+			// site, the second at another, the third runs through)
+			one := func(api, prog string) []Call { return []Call{{API: api, Prog: progIndex(prog)}} }
+			switch stVariant {
+			case 0:
+				sc.Tasks = [][]Call{one("RunCode", "ints_o"), one("RunCode", "ints_p"), one("RunCode", "sizes_n")}
+			case 1:
+				sc.Tasks = [][]Call{one("RunCode", "ints_p"), one("RunCode", "sizes_n"), one("RunCode", "ints_o")}
+			case 2:
+				// longest source first: a scratch buffer that grows on demand is only shared
+				// by later users whose demand is not larger
+				sc.Tasks = [][]Call{one("FormatCode", "crlf_r"), one("FormatCode", "crlf_s"), one("FormatCode", "crlf_q")}
+			case 3:
+				sc.Tasks = [][]Call{one("RunCode", "crlf_r"), one("BuildFile", "crlf_s"), one("FormatCode", "crlf_q")}
+			}
+		}
+		sm.Tasks = nil
+		keyParts = []string{"sweep"}
+		for _, tk := range sc.Tasks {
+			sm.Tasks = append(sm.Tasks, callKey(tk[0]))
+			keyParts = append(keyParts, callKey(tk[0]))
+		}
 		d = 1
 		if storageSweep {
 			res.Probes["shared_storage_window_sweep_runs"]++
@@ -481,7 +527,7 @@ func (e *Engine) Run(t *tape.Tape, keep bool) *sim.Result {
 				}
 			}
 		}
-		if storageSweep && sweepPick/4%2 == 0 {
+		if storageSweep && stNested {
 			// half of these sweeps go to the scratch-buffer idiom proper: the result of a
 			// call that received the shared storage is consumed by the enclosing call
 			var nested []pair
@@ -495,17 +541,39 @@ func (e *Engine) Run(t *tape.Tape, keep bool) *sim.Result {
 			}
 		}
 		if len(pairs) > 0 {
-			pr := pairs[(sweepPick/25)%len(pairs)]
-			frac := []int64{2, 4, 5, 6, 7}[(sweepPick/25/len(pairs))%5]
+			pr := pairs[lockPair%len(pairs)]
+			frac := []int64{2, 4, 5, 6, 7}[(lockPair/len(pairs)+lockPair)%5] // every pass gives each pair another fraction
 			if storageSweep {
-				pr = pairs[(sweepPick/8)%len(pairs)]
-				frac = []int64{16, 16, 7}[(sweepPick/8/len(pairs))%3] // 16: the other caller finishes first
+				pr = pairs[stPair%len(pairs)]
+				frac = []int64{16, 16, 7}[(stPair/len(pairs))%3] // 16: the other caller finishes first
 				res.Probes["shared_storage_window_pairs_in_scenario"] = len(pairs)
 			}
 			sitePts[pr.sid] = []int64{pr.k}
 			returns = []int64{n / 2 * frac / 8}
+			if storageSweep {
+				// a second window at another site for the caller that runs next; nobody is
+				// forced back: a pre-empted caller resumes when the others have finished
+				pr2 := pairs[(stPair+1+len(pairs)/2)%len(pairs)]
+				if pr2.sid != pr.sid {
+					sitePts[pr2.sid] = []int64{pr2.k}
+				}
+				returns = nil
+				targets = []int{1, 2, 0, 1, 2, 0, 1, 2, 0, 1}
+				if frac == 7 {
+					returns = []int64{n / 3 * 7 / 8}
+				}
+			}
 			targets = []int{1, 0, 1, 0, 1, 0, 1, 0, 1, 0}
-			sm.Sites = append(sm.Sites, fmt.Sprintf("sweep: %s occurrence %d, return after %d yields", e.sitePos(pr.sid), pr.k, returns[0]))
+			if len(returns) > 0 {
+				sm.Sites = append(sm.Sites, fmt.Sprintf("sweep: %s occurrence %d, return after %d yields", e.sitePos(pr.sid), pr.k, returns[0]))
+			} else {
+				var ss []string
+				for sid, ks := range sitePts {
+					ss = append(ss, fmt.Sprintf("%s occurrence %d", e.sitePos(sid), ks[0]))
+				}
+				sort.Strings(ss)
+				sm.Sites = append(sm.Sites, "sweep: "+strings.Join(ss, " and ")+"; a pre-empted caller resumes when the others have finished")
+			}
 			if !storageSweep {
 				res.Probes["lock_window_pairs_in_scenario"] = len(pairs)
 			}
